@@ -530,6 +530,30 @@ def stepOld (st0 : St) (ts : List String) : St × String :=
       | some h => ({ st with disk := d }, showLines (rlAll h))
       | none => ({ st with disk := d }, "err open")
     | none => (st, "bad-op")
+  | ["xshr", b] => match parseBytes b with
+    | some bs =>
+      -- `File f(p, READ); f >> x;` (String): the string, position(), end()
+      let d := st.disk.set 0 (some bs)
+      match (openH d 0 false .read).1 with
+      | some h =>
+        let r := hreadStr shrBlock h
+        ({ st with disk := d }, s!"{showBytes r.1} pos={hpos r.2} end={b01 (hend r.2)}")
+      | none => ({ st with disk := d }, "err open")
+    | none => (st, "bad-op")
+  | ["xshw", a, b] => match parseBytes a, parseBytes b with
+    | some s, some tail =>
+      -- `f << int(s.length()) << s << tail` on a fresh file, then `g >> x` and one read of the rest
+      match openH (st.disk.set 0 none) 0 false .write with
+      | (some w, d0) =>
+        let d := (writeAll d0 w [le32 s.length, s, tail]).1
+        match (openH d 0 false .read).1 with
+        | some h =>
+          let r := hreadStr shrBlock h
+          let r2 := hread r.2 (tail.length + 8)
+          ({ st with disk := d }, s!"{showBytes r.1} rest={showBytes r2.1} end={b01 (hend r2.2)}")
+        | none => ({ st with disk := d }, "err open")
+      | (none, d0) => ({ st with disk := d0 }, "err open")
+    | _, _ => (st, "bad-op")
   | ["xrlw", b] => match parseBytes b with
     | some bs =>
       -- `while (tf.readLine(s)) ls << s;` on a freshly opened TextFile: the delivered strings, the string left by the
